@@ -389,6 +389,8 @@ func (x *Address) SameIncarnation(y *Address) bool {
 // Validation rules:
 //   - The zero address (NoSender) is considered valid.
 //   - Host:Port must form a valid TCP address (via net.JoinHostPort).
+//   - Host must not contain '/' or '@': they delimit the text form, so such an
+//     address would not survive String()/Parse.
 //   - System must be non-empty and match pattern: ^[a-zA-Z0-9][a-zA-Z0-9-_.]*$
 //     (starts with alphanumeric; may contain alphanumerics, '-', '_' or '.')
 //   - Name must be non-empty, <= 255 characters, and match the same pattern.
@@ -408,6 +410,7 @@ func (x *Address) Validate() error {
 	verr := validation.
 		New(validation.FailFast()).
 		AddValidator(validation.NewTCPAddressValidator(net.JoinHostPort(x.Host(), strconv.Itoa(x.Port())))).
+		AddAssertion(!strings.ContainsAny(x.Host(), "/@"), "host must not contain '/' or '@'").
 		AddValidator(validation.NewEmptyStringValidator("system", x.System())).
 		AddValidator(validation.NewEmptyStringValidator("name", x.Name())).
 		AddAssertion(len(x.Name()) <= 255, "actor name is too long. Maximum length is 255").
